@@ -25,6 +25,8 @@ CLAIMED["C17"]=("single live minter (exomint hook: once, configured identifier, 
   "call-graph reachability for who-may-mint + dataflow-shape rules (remainder accumulator) over type-checked AST", "4/C17")
 CLAIMED["C12"]=("strict cross-multiplied threshold without division; prices assigned only behind the threshold; sealed workers rejected and results memoised; expected-next-round-id guard and +1 advance; writer set of the price family; EndBlock seal/grow/clear/prepare wiring with token-id vs feeder-id roles; retention guard class; median sorts first",
   "normal-form comparison rules, structured-dominance facts and role-typed id flow over type-checked AST; store effect summaries for the writer set", "4/C12")
+CLAIMED["C01"]=("symbolic delta algebra per ledger operation (transfers cancel; only deposit and positive NST adjustment increase; deposit/withdraw move deposit, withdrawable and staking total by one symbol); fixed set of direct writers of the ledger families; all arithmetic through the non-negativity-checked update helpers; withdraw/delegate preconditions",
+  "symbolic delta-term extraction and cancellation over type-checked AST; SSA key-family resolver for the writer set", "4/C01")
 NA={}
 def main():
     checks=[]
